@@ -36,7 +36,12 @@ for d in sorted(glob.glob('/verif/seeded/C*-*')):
                 detail[c] = [l.strip()[:300] for l in p.stdout.splitlines() if l.startswith('  VIOLATED') or l.startswith('  UNDECIDED')][:3]
     finally:
         subprocess.run('git -C /repo checkout -- . && git -C /repo clean -fdq', shell=True)
-    res[name] = {'target': name.split('-')[0], 'fired': fired, 'caught_by_target': name.split('-')[0] in fired, 'detail': detail}
+    tgt = name.split('-')[0]
+    try:
+        tgt = json.load(open(os.path.join(d, 'meta.json'))).get('retargeted', tgt)
+    except Exception:
+        pass
+    res[name] = {'target': tgt, 'fired': fired, 'caught_by_target': tgt in fired, 'detail': detail}
     print(name, 'fired:', fired)
 json.dump(res, open(resfile, 'w'), indent=1, sort_keys=True)
 tot = len(res); caught = sum(1 for v in res.values() if v.get('fired')); bytarget = sum(1 for v in res.values() if v.get('caught_by_target'))
